@@ -93,6 +93,11 @@ class SessionCheck(Check):
             self.note("ev_dispatch", stats["dispatch"])
             self.note("ev_query", stats["query"])
             self.note("ev_reset", stats["reset"])
+            self.note("ev_reset_after_first_dispatches", stats.get("early_reset", 0))
+            self.note("sparsely_observed_sessions", stats.get("sparse", 0))
+            self.note("episodic_sessions", stats.get("episodic", 0))
+            if all(job[0][1] == 0 for job in case["spec"] if job):
+                self.note("inst_every_job_starts_with_zero_duration")
             self.note("ev_obs", stats["obs"])
             self.note("env_sessions", stats.get("env", 0))
             for k, v in stats["invalid"].items():
@@ -130,6 +135,29 @@ class SessionCheck(Check):
             elif ev[0] in (0, 2, 8) and o and o[0] == 0:
                 dirty = True
         return out
+
+    def reset_failures(self, case, obs):
+        """Oracle (no model involved): the first snapshot after an accepted reset, before any accepted dispatch,
+        shows the initial state - empty rows, zero tracking vectors, nothing scheduled, makespan 0."""
+        fails = []
+        pending = None
+        for i, (ev, o) in enumerate(zip(case["events"], obs)):
+            if ev[0] == 2 and o and o[0] == 0:
+                pending = i
+            elif ev[0] in (0, 8) and o and o[0] == 0:
+                pending = None
+            elif ev[0] == 7 and pending is not None:
+                d = o[0]
+                if any(d[3]) or any(d[0]) or any(d[1]) or any(d[2]) or o[2] != 0 or o[3] != 0:
+                    fails.append(Failure("oracle", "state-after-reset",
+                                         f"snapshot #{i} right after the reset of event #{pending}: the dispatcher still "
+                                         f"reflects the earlier episode (rows / tracking vectors / makespan / count "
+                                         f"are not those of the initial state)",
+                                         expected=[[0] * len(d[0]), [0] * len(d[1]), [0] * len(d[2]),
+                                                   [[] for _ in d[3]], 0, 0],
+                                         observed=[d[0], d[1], d[2], d[3], o[2], o[3]]))
+                pending = None
+        return fails
 
     def tie_failures(self, case, obs, model_out):
         fails = []
